@@ -355,6 +355,12 @@ fn hook_lock_point(site: &'static str, would_block: &dyn Fn() -> bool) {
     if !active {
         return;
     }
+    // The hand-placed lock points of the pools date from before their mutex was a shim type
+    // that announces every lock() itself ("sync.mutex.lock"). Waiting here as well would make
+    // the lock look free to whatever follows - also to a try_lock() a change puts there.
+    if site.starts_with("managed.") || site.starts_with("unmanaged.") {
+        return;
+    }
     while would_block() {
         if cur == CONTROLLER || suppressed() {
             if std::env::var_os("DSIM_BT").is_some() {
